@@ -1,17 +1,21 @@
-(* C11: two places where the code, as it is, does not keep "a refused call changes nothing"
-   (candidate D17 and finding D54).  Small faithful models; the refutations are in ContractProofs2.v.
+(* C11: "a rejected standard adds nothing" and "a refused property set changes nothing": models
+   of the two places where the code did not keep this (D17, D54), in their repaired order and, as
+   regression witnesses, in the order they had before (no proofs in this file).
 
-   D17  _vnacal_new_add_common (vnacal_new_add_common.c): the loop
+   D17  _vnacal_new_add_common (vnacal_new_add_common.c).  Before the repair the loop
             for (s_cell ...) full_s_matrix[...] = _vnacal_new_get_parameter(function, vnp, s_matrix[s_cell])
-        registers every not yet known parameter in vnp->vn_parameter_hash (and, for unknown
-        parameters, in the unknown list) as it goes, and "goto out" on the first invalid handle does
-        not undo the registrations; the measurement and its equations are only linked at the end.
-   D54  vnaproperty_vset (vnaproperty.c): parse_and_descend(..., set = true, ...) creates and
-        replaces nodes along the path; the tests on the tail of the expression and on the token that
-        follows it ("=value" or "#") come afterwards. *)
+        registered every not yet known parameter in vnp->vn_parameter_hash (and, for unknown
+        parameters, in the unknown list) as it went, and "goto out" on the first invalid handle did
+        not undo the registrations.  Repaired order: _vnacal_new_check_parameter on every cell (same
+        tests, nothing added), remaining argument checks, then the registration loop; the
+        measurement and its equations are linked last in both versions.  Which order the working
+        tree has is read from the C text (LV.Gen.ErrnoGen.gen_add_common_prevalidates).
+   D54  vnaproperty_vset (vnaproperty.c).  Before the repair parse_and_descend(set = true) created and
+        replaced nodes along the path before the tests on the tail of the expression and on the
+        value token; repaired order: parse, tests, descend. *)
 Require Import List ZArith Bool.
 Import ListNotations.
-Require Import LV.Err.ErrBase.
+Require Import LV.Err.ErrBase LV.Gen.ErrnoGen.
 Open Scope Z_scope.
 
 (* ---------------------------------------------------------------- D17 *)
@@ -22,10 +26,14 @@ Record newsum : Type := mknew {
 }.
 
 Section AddCommon.
-  Variable valid : Z -> bool.       (* _vnacal_get_parameter(vcp, h) != NULL *)
+  Variable valid : Z -> bool.       (* _vnacal_get_parameter(vcp, h) != NULL (and frequency range ok) *)
   Variable unknown : Z -> bool.     (* type VNACAL_UNKNOWN *)
 
   Definition known (s : newsum) (h : Z) : bool := existsb (Z.eqb h) (n_registered s).
+
+  (* _vnacal_new_check_parameter: the tests of _vnacal_new_get_parameter without the insertion *)
+  Definition check_parameter (s : newsum) (h : Z) : bool :=
+    ((0 <=? h) && known s h) || valid h.
 
   (* _vnacal_new_get_parameter (correlated parameters left out) *)
   Definition get_parameter (s : newsum) (h : Z) : option newsum :=
@@ -33,7 +41,7 @@ Section AddCommon.
     else if negb (valid h) then None
     else Some (mknew (n_registered s ++ [h]) (if unknown h then n_unknowns s + 1 else n_unknowns s) (n_measurements s)).
 
-  (* the s-matrix loop followed by the linking of the measurement *)
+  (* the registration loop *)
   Fixpoint register_cells (s : newsum) (cells : list Z) : newsum * bool :=
     match cells with
     | [] => (s, true)
@@ -43,11 +51,27 @@ Section AddCommon.
                 end
     end.
 
-  Definition add_standard (s : newsum) (cells : list Z) : newsum * outcome :=
+  Definition link (s : newsum) : newsum := mknew (n_registered s) (n_unknowns s) (n_measurements s + 1).
+
+  (* before the repair: register as you go, link at the end *)
+  Definition add_standard_before_fix (s : newsum) (cells : list Z) : newsum * outcome :=
     match register_cells s cells with
-    | (s', true) => (mknew (n_registered s') (n_unknowns s') (n_measurements s' + 1), Pass)
+    | (s', true) => (link s', Pass)
     | (s', false) => (s', Refuse VM1 (Via USAGE))
     end.
+
+  (* repaired order: validate every cell first *)
+  Definition add_standard (s : newsum) (cells : list Z) : newsum * outcome :=
+    if forallb (check_parameter s) cells then
+      match register_cells s cells with
+      | (s', true) => (link s', Pass)
+      | (s', false) => (s', Refuse VM1 (Via USAGE))      (* unreachable: see register_after_check *)
+      end
+    else (s, Refuse VM1 (Via USAGE)).
+
+  (* the order found in the working tree *)
+  Definition add_standard_current (s : newsum) (cells : list Z) : newsum * outcome :=
+    if gen_add_common_prevalidates then add_standard s cells else add_standard_before_fix s cells.
 End AddCommon.
 
 (* ---------------------------------------------------------------- D54 *)
@@ -56,36 +80,42 @@ Inductive ptree : Type :=
 | PScalar (v : Z)
 | PMap (entries : list (Z * ptree)).
 
-(* make the tree conform to a path of map keys and return it with a null at the end of the path
-   unless something is already there (parse_and_descend with set = true, map keys only) *)
 Fixpoint update_entry (es : list (Z * ptree)) (k : Z) (f : ptree -> ptree) : list (Z * ptree) :=
   match es with
   | [] => [(k, f PNull)]
   | (k', t) :: r => if k' =? k then (k', f t) :: r else (k', t) :: update_entry r k f
   end.
 
-Fixpoint conform (path : list Z) (t : ptree) : ptree :=
+(* descend with set = true over a path of map keys: make the tree conform, apply f at the end *)
+Fixpoint descend_set (path : list Z) (f : ptree -> ptree) (t : ptree) : ptree :=
   match path with
-  | [] => t
+  | [] => f t
   | k :: r => match t with
-              | PMap es => PMap (update_entry es k (conform r))
-              | _ => PMap [(k, conform r PNull)]        (* a scalar / null on the way is replaced by a map *)
+              | PMap es => PMap (update_entry es k (descend_set r f))
+              | _ => PMap [(k, descend_set r f PNull)]        (* a scalar / null on the way is replaced by a map *)
               end
   end.
 
-Fixpoint assign (path : list Z) (v : ptree) (t : ptree) : ptree :=
-  match path with
-  | [] => v
-  | k :: r => match t with
-              | PMap es => PMap (update_entry es k (assign r v))
-              | _ => PMap [(k, assign r v PNull)]
-              end
-  end.
+Definition conform (path : list Z) (t : ptree) : ptree := descend_set path (fun x => x) t.
+Definition assign (path : list Z) (v : ptree) (t : ptree) : ptree := descend_set path (fun _ => v) t.
 
-(* vnaproperty_vset: value = None models a descriptor without "=value" / "#" (or with a tail that
-   cannot be assigned to): EINVAL, no report (there is no error function) - after conform *)
-Definition vset (t : ptree) (path : list Z) (value : option ptree) : ptree * outcome :=
+(* value = None models a descriptor without "=value" / "#", or with a tail that cannot be assigned
+   to: EINVAL, no report (these functions have no error function) *)
+
+(* before the repair: descend (conform) first, then look at the value *)
+Definition vset_before_fix (t : ptree) (path : list Z) (value : option ptree) : ptree * outcome :=
   match value with
   | Some v => (assign path v t, Pass)
   | None => (conform path t, Refuse VM1 (Direct E_INVAL))
   end.
+
+(* repaired order: parse, test the tail and the value token, then descend *)
+Definition vset (t : ptree) (path : list Z) (value : option ptree) : ptree * outcome :=
+  match value with
+  | None => (t, Refuse VM1 (Direct E_INVAL))
+  | Some v => (assign path v t, Pass)
+  end.
+
+(* vnaproperty_vset_subtree: trailing = a token follows the descriptor *)
+Definition vset_subtree (t : ptree) (path : list Z) (trailing : bool) : ptree * outcome :=
+  if trailing then (t, Refuse VNULL (Direct E_INVAL)) else (conform path t, Pass).
